@@ -239,6 +239,11 @@ def AuthC (E : AEnv) (H : Hist) : VCChange → Prop
   | .proposal p => E.byz p.sender ∨ H.proposal p.sender p.height p.round p.value
   | .futureQ _ _ _ => True
 
+/-- the message's sender is not one of the excluded addresses `X` (whose messages the driver drops) -/
+def NotExcl (X : Addr → Prop) : VCChange → Prop
+  | .vote v _ => ¬ X v.sender
+  | _ => True
+
 /-- Simulation relation between the abstract system and the machine of correct validator
 `m.nodeAddr`: the abstract local state is the machine's Tendermint variables, and every ballot and
 proposal in the vote counter is justified by the global history. -/
@@ -247,7 +252,7 @@ structure Sim (E : AEnv) (env : Env) (s : Sys) (m : Machine) : Prop where
   just : VCJust E s.hist m.vc
   inv : MInv env m
 
-theorem Sim_sound (E : AEnv) (env : Env) (ok : EnvOK E env) (wf : E.WF) (s : Sys) (m : Machine)
+theorem Sim_sound {X : Addr → Prop} (E : AEnv) (env : Env) (ok : EnvOK E env X) (wf : E.WF) (s : Sys) (m : Machine)
     (hsim : Sim E env s m) : VCSound E s m := by
   refine ⟨?_, ?_, ?_⟩
   · intro r v hq
@@ -264,9 +269,9 @@ theorem Sim_stable (E : AEnv) (env : Env) (s s' : Sys) (m : Machine) (hsim : Sim
     (hle : s.hist.le s'.hist) (hloc : s'.loc m.nodeAddr = s.loc m.nodeAddr) : Sim E env s' m :=
   ⟨by rw [hloc]; exact hsim.loc, VCJust_mono E hle hsim.just, hsim.inv⟩
 
-theorem micro_sim {A : VCChange → Prop} (E : AEnv) (env : Env) (ok : EnvOK E env) (wf : E.WF) (s : Sys)
-    (m m' : Machine) (a : List Action) (hb : ¬ E.byz m.nodeAddr) (hsim : Sim E env s m)
-    (hauth : ∀ c, A c → AuthC E s.hist c)
+theorem micro_sim {A : VCChange → Prop} {X : Addr → Prop} (E : AEnv) (env : Env) (ok : EnvOK E env X) (wf : E.WF) (s : Sys)
+    (m m' : Machine) (a : List Action) (hb : ¬ E.byz m.nodeAddr) (hX : ¬ X m.nodeAddr) (hsim : Sim E env s m)
+    (hauth : ∀ c, A c → AuthC E s.hist c ∧ NotExcl X c)
     (hm : XMicro env A m a m') (sc : SC m m') (hinv' : MInv env m') :
     ∃ s', (s' = s ∨ Abs.Step E s s') ∧ Sim E env s' m' ∧ m'.nodeAddr = m.nodeAddr ∧
       (∀ q, q ≠ m.nodeAddr → s'.loc q = s.loc q) ∧ s.hist.le s'.hist ∧ Recorded a m.nodeAddr s'.hist ∧
@@ -279,9 +284,9 @@ theorem micro_sim {A : VCChange → Prop} (E : AEnv) (env : Env) (ok : EnvOK E e
   | silent _ _ _ _ hvc _ => rw [hvc]; exact base
   | recv _ c hA _ _ hvc =>
     rw [hvc]
-    have hau := hauth c hA
+    obtain ⟨hau, hnx⟩ := hauth c hA
     cases c with
-    | vote v t => exact VCJust_addVote E s'.hist env m.vc v t ok.power base (VJ_mono E hle hau)
+    | vote v t => exact VCJust_addVote E s'.hist env m.vc v t (ok.power _ _ hnx) base (VJ_mono E hle hau)
     | proposal p =>
       exact VCJust_addProposal E s'.hist env m.vc p base (hau.imp (fun x => x) (hle.proposal _ _ _ _))
     | futureQ h r id => exact VCJust_futureQ E s'.hist m.vc h r id base
@@ -295,15 +300,15 @@ theorem micro_sim {A : VCChange → Prop} (E : AEnv) (env : Env) (ok : EnvOK E e
   | prevote _ id _ _ _ hvc _ =>
     rw [hvc]
     have := hrec (.bcastPrevote ⟨m.state.height, m.state.round, m.nodeAddr, id⟩) (List.mem_singleton.mpr rfl)
-    exact VCJust_addVote E s'.hist env m.vc _ .prevote ok.power base (Or.inr this)
+    exact VCJust_addVote E s'.hist env m.vc _ .prevote (ok.power _ _ hX) base (Or.inr this)
   | precommitNil _ _ _ hvc _ =>
     rw [hvc]
     have := hrec (.bcastPrecommit ⟨m.state.height, m.state.round, m.nodeAddr, none⟩) (List.mem_singleton.mpr rfl)
-    exact VCJust_addVote E s'.hist env m.vc _ .precommit ok.power base (Or.inr this)
+    exact VCJust_addVote E s'.hist env m.vc _ .precommit (ok.power _ _ hX) base (Or.inr this)
   | precommitValue _ v _ _ _ _ hvc _ =>
     rw [hvc]
     have := hrec (.bcastPrecommit ⟨m.state.height, m.state.round, m.nodeAddr, some v⟩) (List.mem_singleton.mpr rfl)
-    exact VCJust_addVote E s'.hist env m.vc _ .precommit ok.power base (Or.inr this)
+    exact VCJust_addVote E s'.hist env m.vc _ .precommit (ok.power _ _ hX) base (Or.inr this)
   | commit _ q _ _ _ _ _ _ hvc _ =>
     rw [hvc]; exact VCJust_startNewHeight E s'.hist env m.vc base
 
@@ -392,22 +397,24 @@ theorem Recorded_append {a b : List Action} {p : Addr} {H : Hist} (h1 : Recorded
 
 /-- A chain of micro-steps of a correct validator's machine is simulated by transitions of that
 validator in the abstract system. -/
-theorem chain_sim {A : VCChange → Prop} (E : AEnv) (env : Env) (ok : EnvOK E env) (wf : E.WF)
+theorem chain_sim {A : VCChange → Prop} {X : Addr → Prop} (E : AEnv) (env : Env) (ok : EnvOK E env X) (wf : E.WF)
     (m m' : Machine) (acts : List Action) (hc : XChain env A m acts m') :
-    ∀ (s : Sys), ¬ E.byz m.nodeAddr → Sim E env s m → (∀ c, A c → AuthC E s.hist c) →
+    ∀ (s : Sys), ¬ E.byz m.nodeAddr → ¬ X m.nodeAddr → Sim E env s m →
+    (∀ c, A c → AuthC E s.hist c ∧ NotExcl X c) →
     ∃ s', Steps E s s' ∧ Sim E env s' m' ∧ m'.nodeAddr = m.nodeAddr ∧
       (∀ q, q ≠ m.nodeAddr → s'.loc q = s.loc q) ∧ s.hist.le s'.hist ∧ Recorded acts m.nodeAddr s'.hist ∧
       HistFrom s.hist s'.hist m.nodeAddr acts := by
   induction hc with
   | nil m0 =>
-    intro s _ hsim _
+    intro s _ _ hsim _
     exact ⟨s, Steps.refl s, hsim, rfl, fun _ _ => rfl, Hist.le_refl _, (fun a ha => by cases ha), HistFrom_refl _ _ _⟩
   | @cons m0 m1 m2 a as hm sc _ ih =>
-    intro s hb hsim hauth
+    intro s hb hx hsim hauth
     obtain ⟨s1, hstep, hsim1, hn1, hoth1, hle1, hrec1, hfrom1⟩ :=
-      micro_sim E env ok wf s m0 m1 a hb hsim hauth hm sc (micro_MInv env m0 m1 a hm hsim.inv)
+      micro_sim E env ok wf s m0 m1 a hb hx hsim hauth hm sc (micro_MInv env m0 m1 a hm hsim.inv)
     obtain ⟨s2, hsteps, hsim2, hn2, hoth2, hle2, hrec2, hfrom2⟩ :=
-      ih s1 (by rw [hn1]; exact hb) hsim1 (fun c hc => AuthC_mono E hle1 (hauth c hc))
+      ih s1 (by rw [hn1]; exact hb) (by rw [hn1]; exact hx) hsim1
+        (fun c hc => ⟨AuthC_mono E hle1 (hauth c hc).1, (hauth c hc).2⟩)
     rw [hn1] at hfrom2
     refine ⟨s2, ?_, hsim2, by rw [hn2, hn1], ?_, Hist.le_trans hle1 hle2, ?_, HistFrom_trans hfrom1 hfrom2⟩
     · rcases hstep with h | h
@@ -417,14 +424,14 @@ theorem chain_sim {A : VCChange → Prop} (E : AEnv) (env : Env) (ok : EnvOK E e
     · exact Recorded_append (Recorded_mono hle2 hrec1) (by rw [hn1] at hrec2; exact hrec2)
 
 /-- **Exec refines Abstract**: one input to the machine of a correct validator. -/
-theorem step_sim (E : AEnv) (env : Env) (ok : EnvOK E env) (wf : E.WF) (s : Sys) (m : Machine) (i : Input)
-    (hb : ¬ E.byz m.nodeAddr) (hsim : Sim E env s m) (hok : InputOK m i)
-    (hauth : ∀ c, RecvOf i c → AuthC E s.hist c) :
+theorem step_sim {X : Addr → Prop} (E : AEnv) (env : Env) (ok : EnvOK E env X) (wf : E.WF) (s : Sys) (m : Machine) (i : Input)
+    (hb : ¬ E.byz m.nodeAddr) (hX : ¬ X m.nodeAddr) (hsim : Sim E env s m) (hok : InputOK m i)
+    (hauth : ∀ c, RecvOf i c → AuthC E s.hist c ∧ NotExcl X c) :
     ∃ s', Steps E s s' ∧ Sim E env s' (m.step env i).1 ∧ (m.step env i).1.nodeAddr = m.nodeAddr ∧
       (∀ q, q ≠ m.nodeAddr → s'.loc q = s.loc q) ∧ s.hist.le s'.hist ∧
       Recorded (m.step env i).2 m.nodeAddr s'.hist ∧ HistFrom s.hist s'.hist m.nodeAddr (m.step env i).2 := by
   have hc := step_chain (A := RecvOf i) env m i (fun c h => h) hok hsim.inv
-  exact chain_sim E env ok wf m _ _ hc.1 s hb hsim hauth
+  exact chain_sim E env ok wf m _ _ hc.1 s hb hX hsim hauth
 
 theorem Sim_init (E : AEnv) (env : Env) (h0 : Addr → Height) (p : Addr) :
     Sim E env (Sys.init h0) (Machine.new env p (h0 p)) :=
